@@ -86,4 +86,15 @@ def step (F : Forest) : Op → Forest × Out
         | .left, false => if 0 < i then (F.setKids p (swapAt l i (i - 1)), .index (i - 1)) else (F, .index i)
   | .clear p => (F.setKids p [], .none)
 
+/-- `get_ancestry`: follow the parent links up, prepending each node (`fuel` bounds the walk; a cyclic parent chain would
+    make the Python loop spin) -/
+def ancestryAux (F : Forest) : Nat → Nat → List Nat → List Nat
+  | 0, _, acc => acc
+  | fuel + 1, n, acc =>
+    match F.parent n with
+    | none => n :: acc
+    | some p => ancestryAux F fuel p (n :: acc)
+
+def ancestry (F : Forest) (fuel n : Nat) : List Nat := ancestryAux F fuel n []
+
 end Metapype
